@@ -475,7 +475,9 @@ def digital_history_evaluated(repo: Repo, cname: str, prob_param: str, kind: str
     scope = coverage_scope()
     scope.__enter__()
     try:
-        for p, sym in ((0.5, -7.0), (0.0, -7.0), (1.0, -7.0)) + (((0.5, float("inf")),) if kind == "bec" else ()):
+        # the erasure channel is also fed integer-typed bits with a fractional erasure symbol: the symbol must reach the
+        # output as configured (a symbol materialised in the input's integer dtype is truncated)
+        for p, sym, as_int in ((0.5, -7.0, False), (0.0, -7.0, False), (1.0, -7.0, False)) + (((0.5, float("inf"), False), (0.5, 0.5, True), (1.0, -0.5, True)) if kind == "bec" else ()):
             # a block that holds only the symbol 1 has one reading, {0,1} (no -1 in it); a block of zeros is written in either alphabet
             for ia, ib, bips in ((0, 2, None), (1, 0, None), (2, 1, None), (3, 0, ((False, False), (False, True))), (4, 3, ((False, False), (True, False))), (0, 3, ((False, False), (True, False)))):
                 for bip in bips or ((False, False), (False, True), (True, False), (True, True)):
@@ -484,7 +486,7 @@ def digital_history_evaluated(repo: Repo, cname: str, prob_param: str, kind: str
                         return None, "the constructor's attribute assignments could not be evaluated", 0
                     hist = []
                     for bits, bipolar in ((BSC_INPUTS[ia], bip[0]), (BSC_INPUTS[ib], bip[1])):
-                        x = [[(2 * b - 1 if bipolar else b) * 1.0 for b in r] for r in bits]
+                        x = [[(2 * b - 1 if bipolar else b) * (1 if as_int else 1.0) for b in r] for r in bits]
                         del mode[:]
                         try:
                             run_fragment(fi.body, {"x": [list(r) for r in x], "args": [], "kwargs": {}}, attrs, funcs=funcs, ctors={"torch.rand_like": shaped}, max_steps=60000, attrs_live=True)
